@@ -176,6 +176,9 @@ func (e *handlerEnv) run(id int, st h.Step) map[string]interface{} {
 	}
 	defer os.RemoveAll(d)
 	ep := st.Str("ep")
+	if ep == "reload" {
+		return e.runReload(d, st)
+	}
 	// the script (must not contain '=' when there is no filter part)
 	script := fmt.Sprintf("cat /proc/$$/environ > %s/env.$$; cat > %s/stdin.$$", d, d)
 	limit := 1024
@@ -328,6 +331,75 @@ func (e *handlerEnv) run(id int, st h.Step) map[string]interface{} {
 		obs["stdin"] = habs(string(stdinRaw))
 	}
 	return obs
+}
+
+// runReload: a history of configuration reloads and events on ONE ScriptEventHandler, driven the way the agent does
+// it: Scripts = config.EventScripts() at start, UpdateScripts(newConfig.EventScripts()) on reload.  Handler i of the
+// configuration given at step u touches the marker file ran.<u>.<i>.<pid>.
+func (e *handlerEnv) runReload(d string, st h.Step) map[string]interface{} {
+	self := serf.Member{Name: "self", Tags: map[string]string{}}
+	var logbuf bytes.Buffer
+	var handler *agent.ScriptEventHandler
+	hist, _ := st["hist"].([]interface{})
+	runs := make([]interface{}, len(hist))
+	for j, raw := range hist {
+		step := h.Step(raw.(map[string]interface{}))
+		runs[j] = [][]int{}
+		switch step.Str("op") {
+		case "init", "update":
+			cfg := &agent.Config{}
+			specs, _ := step["specs"].([]interface{})
+			if step.Int("nilh") == 0 {
+				cfg.EventHandlers = []string{}
+			}
+			for i, sp := range specs {
+				script := fmt.Sprintf(": > %s/ran.%d.%d.$$", d, j+1, i+1)
+				if spec, has := renderSpec(sp); has {
+					script = spec + "=" + script
+				}
+				cfg.EventHandlers = append(cfg.EventHandlers, script)
+			}
+			if step.Str("op") == "init" {
+				handler = &agent.ScriptEventHandler{SelfFunc: func() serf.Member { return self }, Scripts: cfg.EventScripts(),
+					Logger: log.New(&logbuf, "", 0)}
+			} else {
+				handler.UpdateScripts(cfg.EventScripts())
+			}
+		case "event":
+			ev := step.Rec("ev")
+			var event serf.Event
+			if ev.Str("t") == "user" {
+				event = serf.UserEvent{LTime: serf.LamportTime(j), Name: evNames[ev.Int("n")], Payload: []byte("p")}
+			} else {
+				event = serf.MemberEvent{Type: memberTypes[ev.Str("t")], Members: []serf.Member{{Name: "m", Addr: addrClasses[1]}}}
+			}
+			handler.HandleEvent(event)
+			files, _ := filepath.Glob(filepath.Join(d, "ran.*"))
+			count := map[[2]int]int{}
+			for _, f := range files {
+				var u, i, pid int
+				if n, _ := fmt.Sscanf(filepath.Base(f), "ran.%d.%d.%d", &u, &i, &pid); n == 3 {
+					count[[2]int{u, i}]++
+				}
+				os.Remove(f)
+			}
+			var keys [][2]int
+			for k := range count {
+				keys = append(keys, k)
+			}
+			sort.Slice(keys, func(a, b int) bool {
+				return keys[a][0] < keys[b][0] || (keys[a][0] == keys[b][0] && keys[a][1] < keys[b][1])
+			})
+			rs := [][]int{}
+			for _, k := range keys {
+				rs = append(rs, []int{k[0], k[1], count[k]})
+			}
+			runs[j] = rs
+		default:
+			h.Die("reload step %q", step.Str("op"))
+		}
+	}
+	return map[string]interface{}{"runs": runs, "count": 0}
 }
 
 func fillHandlerObs(obs map[string]interface{}, ep string) map[string]interface{} {
